@@ -1,0 +1,29 @@
+//go:build verif
+
+package kafka
+
+import (
+	"context"
+
+	"github.com/ozontech/file.d/metric"
+	"github.com/ozontech/file.d/pipeline"
+	"go.uber.org/zap"
+)
+
+// Exported wrappers for the verification harness (C19): the batch payload builder.
+
+// VerifNew builds a plugin around a given producer (Start would dial the brokers).
+func VerifNew(config *Config, client KafkaClient, avgEventSize int, ctl *metric.Ctl) *Plugin {
+	p := &Plugin{
+		config:       config,
+		logger:       zap.NewNop().Sugar(),
+		avgEventSize: avgEventSize,
+		client:       client,
+		ctx:          context.Background(),
+	}
+	p.registerMetrics(ctl)
+	return p
+}
+
+// VerifOut calls the unexported out() with the given worker data.
+func (p *Plugin) VerifOut(wd *pipeline.WorkerData, b *pipeline.Batch) error { return p.out(wd, b) }
